@@ -212,6 +212,15 @@ func (e *Enc) newHeapVersion(st *bstate, c *Comp) string {
 	if e.curWrite != nil {
 		e.curWrite[c.Name] = true
 	}
+	// every heap state is well-typed: sized integers stay within their range
+	if lo, hi, ok := intRange(c.ValTyp); ok && c.ValTyp != nil {
+		switch c.Kind {
+		case "field", "cell":
+			e.items = append(e.items, fmt.Sprintf("(assert (forall ((r Int)) (! (and (<= %s (select %s r)) (<= (select %s r) %s)) :pattern ((select %s r)))))", lo, n, n, hi, n))
+		case "elems":
+			e.items = append(e.items, fmt.Sprintf("(assert (forall ((r Int) (i Int)) (! (and (<= %s (select (select %s r) i)) (<= (select (select %s r) i) %s)) :pattern ((select (select %s r) i)))))", lo, n, n, hi, n))
+		}
+	}
 	return n
 }
 
@@ -353,6 +362,27 @@ func (e *Enc) resolveCompSpec(m string, pkgPath string) []string {
 			if si == nil {
 				e.errors = append(e.errors, fmt.Sprintf("modifies %q: not a struct", m))
 				return nil
+			}
+			if m[i+1:] == "*" {
+				// all fields, including those of structs embedded by value
+				var out []string
+				var rec func(t types.Type, depth int)
+				rec = func(t types.Type, depth int) {
+					sj := e.W.structInfo(t)
+					if sj == nil || depth > 4 {
+						return
+					}
+					for k := 0; k < sj.St.NumFields(); k++ {
+						ft := sj.St.Field(k).Type()
+						if e.W.structInfo(ft) != nil {
+							rec(ft, depth+1)
+							continue
+						}
+						out = append(out, e.W.fieldComp(sj.Type, k).Name)
+					}
+				}
+				rec(t, 0)
+				return out
 			}
 			for k := 0; k < si.St.NumFields(); k++ {
 				if si.St.Field(k).Name() == m[i+1:] {
@@ -566,6 +596,9 @@ var intRanges = map[types.BasicKind][2]string{
 }
 
 func intRange(t types.Type) (lo, hi string, ok bool) {
+	if t == nil {
+		return "", "", false
+	}
 	b, isB := types.Unalias(t).Underlying().(*types.Basic)
 	if !isB {
 		return "", "", false
